@@ -238,6 +238,7 @@ func Run(sc Scenario) (out Outcome) {
 	}
 	script := &xport.Script{Stream: append([]byte(nil), sc.Stream...), Events: append([]xport.Event(nil), sc.Events...), WriteErr: sc.WriteErr, FlushErr: sc.FlushFails, OnCancel: cancel}
 	seq := 0
+	dials := 0
 	script.Seq = &seq
 	var rec *Recorder
 	if sc.Hooks {
@@ -274,6 +275,12 @@ func Run(sc Scenario) (out Outcome) {
 		script.IdleKind, script.IdleWait = "timeout", 0
 		conf := modbus.ClientConfig{ReadTimeout: rt, WriteTimeout: time.Second,
 			DialContextFunc: func(ctx context.Context, address string) (net.Conn, error) {
+				dials++
+				if dials > 1 {
+					// a client that dials again on its own finds the same device: the connection behaves as the first one did, from the start
+					again := &xport.Script{Stream: append([]byte(nil), sc.Stream...), Events: append([]xport.Event(nil), sc.Events...), IdleKind: "timeout"}
+					return &xport.ScriptConn{S: again}, nil
+				}
 				if sc.PacketConn {
 					return &xport.ScriptPacketConn{ScriptConn: xport.ScriptConn{S: script}}, nil
 				}
